@@ -114,8 +114,8 @@ package pos
 //@   modifies nsort
 //@   ensures  fresh(result) && pairsOf(result, vv.values) && canonical(result)
 //@   loop 1 modifies array[*]
-//@   loop 1 invariant arrof(array) == arrof(atentry(array)) || arrof(array) >= _loopalloc
-//@   loop 1 invariant len(array) == _k && 0 <= _k && _k <= len(vv.values) && arrof(array) >= old(_alloc)
+//@   loop 1 invariant arrof(array) == arrof(atentry(array)) || arrfresh(array, _loopalloc)
+//@   loop 1 invariant len(array) == _k && 0 <= _k && _k <= len(vv.values) && arrfresh(array, old(_alloc))
 //@   loop 1 invariant forall(j, 0, _k, _visited[array[j].ID] && has(vv.values, array[j].ID) && vv.values[array[j].ID] == array[j].Weight)
 //@   loop 1 invariant forall(i, 0, _k, forall(j, 0, _k, i != j ==> array[i].ID != array[j].ID))
 //@
